@@ -3,53 +3,129 @@
 (*  - Start / Step enumerate every composable path of conversions of length        *)
 (*    <= MaxLen from every frame; PathTheorems checks on each that the two-step     *)
 (*    equations generate its canonical form (Reduce = Canon), that inverses are     *)
-(*    involutive, and tolerances are the stated ones; every path of length >= 2     *)
-(*    with a canonical form is exported as a PATH EQUATION  path == Canon(path);    *)
-(*  - PickShift enumerates (longitude, shift) on the dyadic lattice; ShiftTheorems  *)
-(*    checks the specification against the statement (stated interval, result =     *)
-(*    input - shift mod 360) and that the implementation-shaped fold refines it     *)
-(*    (ShiftRefines; FixedGE = FALSE is the pinned `> 360` comparison);             *)
-(*  - PickCube enumerates Euler triples of quarter turns; CubeTheorems: the         *)
-(*    implemented convention is a proper rotation of the cube, is inverted by       *)
-(*    rotate(psi, -theta, phi), and by rotate(-psi, -theta, -phi) only when         *)
-(*    phi = psi (mod 360) or theta = 0 (mod 180) (why both are accepted);           *)
-(*  - PickAnchor enumerates the anchor facts derived from the documented constants. *)
-EXTENDS Frames, Json
+(*    involutive, and that the tolerances are the stated ones; every path of length *)
+(*    >= 2 with a canonical form is exported as a PATH EQUATION path == Canon(path);*)
+(*  - PickFrame enumerates the frames: PointTheorems checks that every input point  *)
+(*    (great-circle lattice x eps, lon 0 and 360, both poles at several longitudes, *)
+(*    the documented poles / nodes / SDSS centre and their eps-neighbourhoods, the  *)
+(*    rational sphere) is a valid input of its frame; the points are exported;      *)
+(*  - PickGC1 / PickGC2 and PickRS1 / PickRS2 enumerate the pairs whose exact       *)
+(*    separation the isometry clause is judged against; IsoTheorems: the expected   *)
+(*    value is symmetric and unchanged by the longitude representation;             *)
+(*  - PickShift enumerates (longitude, shift, mode) on two dyadic lattices;         *)
+(*    ShiftTheorems checks the specification against the statement (stated          *)
+(*    interval, result = input - shift mod 360, uniqueness) and ShiftRefines that   *)
+(*    the implementation-shaped fold refines it (FixedGE = FALSE is the pinned      *)
+(*    `> 360` comparison);                                                          *)
+(*  - PickCube enumerates Euler triples of quarter turns; CubeTheorems: both zxz    *)
+(*    conventions are proper rotations of the cube and isometries, the implemented  *)
+(*    one is inverted by candidate 1, the textbook one by candidate 2 of InvCands;  *)
+(*  - PickAnchor enumerates the anchor facts derived from the documented constants; *)
+(*    AnchorTheorems: they are closed under inversion and mutually consistent with  *)
+(*    an isometry where the separation is plain arithmetic.                         *)
+EXTENDS Frames, Json, SequencesExt
 
 CONSTANTS MaxLen,      \* paths of length 1..MaxLen
+          GCA,         \* integer degrees used as positions along each lattice circle
+          BMax,        \* eps multiples -BMax..BMax at each position
+          MerLons,     \* base longitudes (integer degrees) of the meridian circles
+          PoleLons,    \* longitudes at which both poles are given
+          EpsSet,      \* instantiations of eps: subset of 0..3 (1e-12, 1e-9, 1e-6, 1e-3 degree)
+          MaxD,        \* rational sphere: denominators <= MaxD
           LonStep8,    \* shift lattice: longitudes 0, LonStep8, ... < 2880 (eighths of a degree)
           ShiftSet8,   \* |shift| values in eighths of a degree (both signs are tried)
           FixedGE,     \* TRUE: the repaired `>= 360` fold
           DoExport
 
-VARIABLES kind, path, x, y
-vars == <<kind, path, x, y>>
+VARIABLES kind, path, x, y, z
+vars == <<kind, path, x, y, z>>
 
-Init == kind = "start" /\ path = <<>> /\ x = 0 /\ y = 0
+Init == kind = "start" /\ path = <<>> /\ x = 0 /\ y = 0 /\ z = 0
 
-Start == kind = "start" /\ kind' = "path" /\ \E s \in Selectors : path' = <<s>> /\ UNCHANGED <<x, y>>
-Step  == kind = "path" /\ Len(path) < MaxLen /\ UNCHANGED <<kind, x, y>>
+\* ---- paths ----------------------------------------------------------------------------------
+Start == kind = "start" /\ kind' = "path" /\ \E s \in Selectors : path' = <<s>> /\ UNCHANGED <<x, y, z>>
+Step  == kind = "path" /\ Len(path) < MaxLen /\ UNCHANGED <<kind, x, y, z>>
          /\ \E s \in Selectors : SelSrc(s) = PathDst(path) /\ path' = path \o <<s>>
 
-Lons8 == {k * LonStep8 : k \in 0..((Full - 1) \div LonStep8)}
-\* y encodes the signed shift: y = 2*|s| + (1 if negative)
+\* ---- the bounded lattices ---------------------------------------------------------------------
+Positions == {<<a, b>> : a \in GCA, b \in (-BMax)..BMax}
+GCBase == {GEquatorPoint(t) : t \in Positions}
+          \cup UNION {{GMeridianPoint(L, t) : t \in Positions} : L \in MerLons}
+          \cup {GPt(EDeg(l), EDeg(s * 90)) : l \in PoleLons, s \in {-1, 1}}
+\* "lon in {0, 360}": every point at longitude 0 is also given at longitude 360
+GCSet == GCBase \cup {GPt(EDeg(360), p.lat) : p \in {q \in GCBase : q.lon = EZero}}
+GKey(p) == (((p.lon[1] * 32) + (p.lon[2] + 16)) * 256 + (p.lat[1] + 90)) * 32 + (p.lat[2] + 16)
+G  == SetToSortSeq(GCSet, LAMBDA p, q : GKey(p) < GKey(q))
+NG == Len(G)
+
+SKey(v) == ((v[4] * 64 + (v[1] + 32)) * 64 + (v[2] + 32)) * 64 + (v[3] + 32)
+RS == RSphere(MaxD)
+S  == SetToSortSeq(RS, LAMBDA u, v : SKey(u) < SKey(v))
+NS == Len(S)
+
+ASSUME /\ \A p \in GCSet : GValid(p)
+       /\ \A p, q \in GCSet : GKey(p) = GKey(q) => p = q
+       /\ BMax < 16 /\ MaxD < 32 /\ EpsSet \subseteq 0..3
+
+\* ---- decimal input points per frame -----------------------------------------------------------
+DP(lon, lat) == [lon |-> lon, lat |-> lat]
+SphDec == {DP(EToD(p.lon, e), EToD(p.lat, e)) : p \in GCSet, e \in EpsSet}
+\* the same directions as (eta, lambda) with eta in [-180, 180] (both ends for 180)
+SdssLon(l) == IF DLt(DDeg(180), l) THEN DSub(l, DDeg(360)) ELSE l
+SdssDec == {DP(SdssLon(p.lon), p.lat) : p \in SphDec}
+           \cup {DP(DDeg(-180), p.lat) : p \in {q \in SphDec : q.lon = DDeg(180)}}
+Offs == UNION {{DEps(e), DNeg(DEps(e))} : e \in EpsSet}
+Around(p) == {p} \cup {DP(p.lon, DAdd(p.lat, d)) : d \in Offs} \cup {DP(DAdd(p.lon, d), p.lat) : d \in Offs}
+\* documented special positions: poles, nodes and source poles of the galactic / ecliptic rotations
+\* (the anchor inputs), the SDSS survey centre (185, 32.5) = (lambda, eta) (0, 0), and in survey
+\* coordinates the images of the equatorial poles (eta = 57.5 and -122.5 on lambda = 0)
+SpecialBase(fr) ==
+    CASE fr = "eq"   -> {DP(a.in.lon, a.in.lat) : a \in Anchors(1) \cup Anchors(3)} \cup {DP(DDeg(185), DAng(32, 500000, 0))}
+      [] fr = "gal"  -> {DP(a.in.lon, a.in.lat) : a \in Anchors(2) \cup Anchors(6)}
+      [] fr = "ec"   -> {DP(a.in.lon, a.in.lat) : a \in Anchors(4) \cup Anchors(5)}
+      [] fr = "sdss" -> {DP(DAng(57, 500000, 0), DDeg(0)), DP(DAng(-123, 500000, 0), DDeg(0)), DP(DDeg(0), DDeg(0))}
+      [] fr = "xyz"  -> {DP(a.in.lon, a.in.lat) : a \in Anchors(1)}
+FrameDecRaw(fr) == (IF fr = "sdss" THEN SdssDec ELSE SphDec) \cup UNION {Around(p) : p \in SpecialBase(fr)}
+FrameDec(fr) == {p \in FrameDecRaw(fr) : ValidIn(fr, PtD(p.lon, p.lat))}
+DPLess(p, q) == \/ DLt(p.lon, q.lon) \/ (p.lon = q.lon /\ DLt(p.lat, q.lat))
+FrameSeq(fr) == SetToSortSeq(FrameDec(fr), DPLess)
+FrameOf(n) == CASE n = 1 -> "eq" [] n = 2 -> "gal" [] n = 3 -> "ec" [] n = 4 -> "sdss" [] n = 5 -> "xyz"
+PickFrame == kind = "start" /\ kind' = "frame" /\ UNCHANGED <<path, y, z>> /\ x' \in 1..5
+
+\* ---- isometry pairs -----------------------------------------------------------------------------
+PickGC1 == kind = "start" /\ kind' = "gc1" /\ x' \in 1..NG /\ UNCHANGED <<path, y, z>>
+PickGC2 == kind = "gc1" /\ kind' = "gc2" /\ UNCHANGED <<path, x, z>>
+           /\ y' \in {k \in x..NG : GDefined(G[x], G[k])}
+PickRS1 == kind = "start" /\ kind' = "rs1" /\ x' \in 1..NS /\ UNCHANGED <<path, y, z>>
+PickRS2 == kind = "rs1" /\ kind' = "rs2" /\ UNCHANGED <<path, x, z>> /\ y' \in x..NS
+
+\* ---- shifts: z = 1: unit 1/8 degree, z = 2: unit 2^-20 degree; y = 2*|s| + (1 if negative) --------
+Unit(u)  == IF u = 1 THEN 8 ELSE 1048576
+FullOf(u) == 360 * Unit(u)
+Lons8 == {k * LonStep8 : k \in 0..((FullOf(1) - 1) \div LonStep8)}
+F2 == FullOf(2)
+FineLons   == {0, 1, 2, 104857, F2 \div 4 + 3, F2 \div 2 - 1, F2 \div 2, F2 \div 2 + 1, 3 * (F2 \div 4) - 7, F2 - 2, F2 - 1}
+FineShifts == {0, 1, 2, 104857, F2 \div 2 - 1, F2 \div 2, F2 \div 2 + 1, F2 - 1, F2, F2 + 1, 2 * F2 - 1, 2 * F2, 2 * F2 + 3}
+LonsOf(u)   == IF u = 1 THEN Lons8 ELSE FineLons
+ShiftsOf(u) == IF u = 1 THEN ShiftSet8 ELSE FineShifts
 PickShift == kind = "start" /\ kind' = "shift" /\ UNCHANGED path
-             /\ x' \in Lons8 /\ \E a \in ShiftSet8 : y' \in {2 * a, 2 * a + 1}
+             /\ \E u \in {1, 2} : z' = u /\ x' \in LonsOf(u) /\ \E a \in ShiftsOf(u) : y' \in {2 * a, 2 * a + 1}
 ShiftOf(v) == IF v % 2 = 1 THEN -(v \div 2) ELSE v \div 2
 
-\* x encodes (phi, theta, psi) in quarter turns as phi*16 + theta*4 + psi
-PickCube == kind = "start" /\ kind' = "cube" /\ UNCHANGED <<path, y>> /\ x' \in 0..63
+\* ---- cube: x encodes (phi, theta, psi) in quarter turns as phi*16 + theta*4 + psi -----------------
+PickCube == kind = "start" /\ kind' = "cube" /\ UNCHANGED <<path, y, z>> /\ x' \in 0..63
 CubePhi(v) == v \div 16
 CubeTheta(v) == (v \div 4) % 4
 CubePsi(v) == v % 4
 
-\* x = selector, y = index into the (sorted) anchor set of that selector
-AKey(a) == a.in.lon[1] + a.in.lat[1] * 7 + a.out.lon[1] * 13 + a.out.lat[1] * 3
-PickAnchor == kind = "start" /\ kind' = "anchor" /\ UNCHANGED path
+\* ---- anchors: x = selector, y = index into the sorted anchor set of that selector ------------------
+ALess(a, b) == \/ DPLess(a.in, b.in) \/ (a.in = b.in /\ DPLess(a.out, b.out))
+AnchorSeq(s) == SetToSortSeq(Anchors(s), ALess)
+PickAnchor == kind = "start" /\ kind' = "anchor" /\ UNCHANGED <<path, z>>
               /\ x' \in 1..6 /\ y' \in 1..Cardinality(Anchors(x'))
 
-Next == Start \/ Step \/ PickShift \/ PickCube \/ PickAnchor
-NextExport == Next
+Next == Start \/ Step \/ PickFrame \/ PickGC1 \/ PickGC2 \/ PickRS1 \/ PickRS2 \/ PickShift \/ PickCube \/ PickAnchor
+NextExport == Start \/ Step \/ PickFrame \/ PickGC1 \/ PickRS1 \/ PickCube \/ PickAnchor
 Spec == Init /\ [][Next]_vars
 
 \* ---- theorems ------------------------------------------------------------------------------
@@ -57,40 +133,91 @@ PathTheorems == kind = "path" =>
     /\ ValidPath(path)
     /\ \A s \in Selectors : SelInverse(SelInverse(s)) = s /\ SelSrc(SelInverse(s)) = SelDst(s)
     /\ HasCanon(path) => Reduce(path) = Canon(path)
-    /\ HasCanon(path) => EqnTol9(path) \in {1, 10000, 20000, 30000}
+    /\ HasCanon(path) => EqnTol9(path) \in {1, 2, 3, 4, 10000, 20000, 30000, 40000}
     /\ (Len(path) = 2 /\ path[2] = SelInverse(path[1])) => (Canon(path) = <<>> /\ EqnTol9(path) \in {1, 10000})
+    /\ (HasCanon(path) /\ EqnTol9(path) < 10000) => \A k \in DOMAIN path : path[k] \in 7..10
+
+PointTheorems == kind = "frame" =>
+    LET fr == FrameOf(x) IN
+    /\ \A p \in FrameDec(fr) : ValidIn(fr, PtD(p.lon, p.lat))
+    /\ \A v \in RS : ValidIn(fr, PtR(v))
+    /\ SpecialBase(fr) \subseteq FrameDecRaw(fr)
+    \* lon 0 and lon 360 (eta -180 and 180), both poles
+    /\ \E p \in FrameDec(fr) : p.lon = DDeg(IF fr = "sdss" THEN -180 ELSE 0)
+    /\ \E p \in FrameDec(fr) : p.lon = DDeg(IF fr = "sdss" THEN 180 ELSE 360)
+    /\ \E p \in FrameDec(fr) : p.lat = DDeg(90)
+    /\ \E p \in FrameDec(fr) : p.lat = DDeg(-90)
+    \* the SDSS node (95, 0) and the documented galactic pole are inputs of the equatorial frame
+    /\ fr = "eq" => (DP(DDeg(95), DDeg(0)) \in FrameDec(fr) /\ DP(AlphaG, DeltaG) \in FrameDec(fr))
+
+Wraps == {-1, 0, 1}
+IsoTheorems ==
+    /\ kind = "gc2" =>
+          LET p == G[x]  q == G[y] IN
+          /\ GThmRange(p, q) /\ GThmSymmetric(p, q) /\ GThmZeroIffSame(p, q)
+          /\ \A k1, k2 \in Wraps : GThmWrap(p, q, k1, k2)
+    /\ kind = "rs2" =>
+          LET u == S[x]  v == S[y] IN
+          /\ SIsUnit(u) /\ SIsUnit(v) /\ SThmSymmetric(u, v) /\ SThmRange(u, v) /\ SThmOneIffSame(u, v)
+          /\ SThmIsometry(u, v)
 
 ShiftTheorems == kind = "shift" =>
-    LET lon == x  s == ShiftOf(y) IN
-    /\ InShiftRange(ShiftSpec(lon, s)) /\ SameMod360(ShiftSpec(lon, s), lon - s)
-    /\ InWrapRange(WrapSpec(lon)) /\ SameMod360(WrapSpec(lon), lon)
-    /\ \A v \in 0..(Full - 1) : (InShiftRange(v) /\ SameMod360(v, lon - s)) => v = ShiftSpec(lon, s)   \* unique
-ShiftRefines == kind = "shift" => ShiftMech(x, ShiftOf(y), FixedGE) = ShiftSpec(x, ShiftOf(y))
+    LET lon == x  s == ShiftOf(y)  F == FullOf(z) IN
+    /\ 0 <= lon /\ lon < F
+    /\ \A mode \in ShiftModes :
+          LET w == ShiftExpect(mode, lon, s, F) IN
+          /\ ShiftAccept(mode, lon, s, w, F)
+          \* uniqueness where an interval is stated (except the doubly closed end of the wrap interval)
+          /\ HasShift(mode) => (~ShiftInterval(mode, w - F, F) /\ ~ShiftInterval(mode, w + F, F))
+          /\ mode = "wrap" => (~ShiftInterval(mode, w + F, F) /\ (ShiftInterval(mode, w - F, F) <=> lon = F \div 2))
+ShiftRefines == kind = "shift" => ShiftMech(x, ShiftOf(y), FullOf(z), FixedGE) = ShiftSpec(x, ShiftOf(y), FullOf(z))
 
-CubePts == {<<1, 0, 0, 1>>, <<0, 1, 0, 1>>, <<0, 0, 1, 1>>, <<2, 3, 6, 7>>, <<-1, 2, 2, 3>>}
+CubePtSet == {<<1, 0, 0, 1>>, <<0, 1, 0, 1>>, <<0, 0, 1, 1>>, <<2, 3, 6, 7>>, <<-1, 2, 2, 3>>}
+CubePts == SetToSortSeq(CubePtSet, LAMBDA u, v : SKey(u) < SKey(v))
 CubeTheorems == kind = "cube" =>
-    LET f == CubePhi(x)  t == CubeTheta(x)  p == CubePsi(x)
-        pts == [k \in 1..Cardinality(CubePts) |-> CHOOSE v \in CubePts : Cardinality({w \in CubePts : w[1] * 100 + w[2] * 10 + w[3] < v[1] * 100 + v[2] * 10 + v[3]}) = k - 1]
-    IN /\ IsCubeRotation(pts, [k \in DOMAIN pts |-> CubeRotate(f, t, p, pts[k])])
-       /\ \A v \in CubePts : CubeRotate(p, -t, f, CubeRotate(f, t, p, v)) = v
-       /\ (f = p \/ t % 2 = 0) => \A v \in CubePts : CubeRotate(-p, -t, -f, CubeRotate(f, t, p, v)) = v
-       /\ \A v, w \in CubePts : CosSep(CubeRotate(f, t, p, v), CubeRotate(f, t, p, w)) = CosSep(v, w)
+    LET f == CubePhi(x)  t == CubeTheta(x)  p == CubePsi(x)  ang == <<f, t, p>>
+        c1 == ApplyCand(InvCands[1], ang)  c2 == ApplyCand(InvCands[2], ang)
+    IN /\ IsCubeRotation(CubePts, [k \in DOMAIN CubePts |-> CubeRotate(f, t, p, CubePts[k])])
+       /\ IsCubeRotation(CubePts, [k \in DOMAIN CubePts |-> CubeRotateStd(f, t, p, CubePts[k])])
+       /\ \A v \in CubePtSet : CubeRotate(c1[1], c1[2], c1[3], CubeRotate(f, t, p, v)) = v
+       /\ \A v \in CubePtSet : CubeRotateStd(c2[1], c2[2], c2[3], CubeRotateStd(f, t, p, v)) = v
+       /\ \A v, w \in CubePtSet : CosSep(CubeRotate(f, t, p, v), CubeRotate(f, t, p, w)) = CosSep(v, w)
+       \* a general-position point pins the rotation down: only one of the 24 maps it to its image
+       /\ Cardinality({m \in Rot24 : SPApply(m, <<2, 3, 6, 7>>) = CubeRotate(f, t, p, <<2, 3, 6, 7>>)}) = 1
 
-AnchorSeq(s) == LET A == Anchors(s) IN
-    [k \in 1..Cardinality(A) |-> CHOOSE a \in A : Cardinality({b \in A : AKey(b) < AKey(a)}) = k - 1]
 AnchorTheorems == kind = "anchor" =>
     LET a == AnchorSeq(x)[y] IN
-    /\ \A b, c \in Anchors(x) : AKey(b) = AKey(c) => b = c
-    /\ a.in.lat[1] <= 90 * Mega /\ a.in.lat[1] >= -90 * Mega
-    /\ a.out.lat[1] <= 90 * Mega /\ a.out.lat[1] >= -90 * Mega
+    /\ Len(AnchorSeq(x)) = Cardinality(Anchors(x))
+    /\ DWellFormed(a.in.lon) /\ DWellFormed(a.in.lat) /\ DWellFormed(a.out.lon) /\ DWellFormed(a.out.lat)
+    /\ DLe(DDeg(-90), a.in.lat) /\ DLe(a.in.lat, DDeg(90)) /\ DLe(DDeg(-90), a.out.lat) /\ DLe(a.out.lat, DDeg(90))
+    /\ DLe(DDeg(0), a.in.lon) /\ DLt(a.in.lon, DDeg(360)) /\ DLe(DDeg(0), a.out.lon) /\ DLt(a.out.lon, DDeg(360))
+    /\ a.free <=> DIsPole(a.out)
     /\ [in |-> a.out, out |-> a.in, free |-> DIsPole(a.in)] \in Anchors(SelInverse(x))
+    \* the facts of one conversion are consistent with an isometry wherever the separation is plain arithmetic
+    /\ \A b \in Anchors(x) : (DSepDefined(a.in, b.in) /\ DSepDefined(a.out, b.out)) => DSep(a.in, b.in) = DSep(a.out, b.out)
 
 \* ---- export ----------------------------------------------------------------------------------------
+SelInfo(s) == [sel |-> s, name |-> SelName(s), src |-> SelSrc(s), dst |-> SelDst(s), euler |-> IsEuler(s),
+               isotol9 |-> IsoTol9(s), lonrange |-> IF HasLonRange(s) THEN <<LonLo(s), LonHi(s)>> ELSE <<>>]
+GCRow(a) == LET js == SelectSeq([k \in 1..(NG - a + 1) |-> a + k - 1], LAMBDA b : GDefined(G[a], G[b]))
+            IN [i |-> a, js |-> js, seps |-> [k \in 1..Len(js) |-> SepGC(G[a], G[js[k]])]]
+RSRow(a) == [i |-> a, dots |-> [k \in 1..(NS - a + 1) |-> SDot(S[a], S[a + k - 1])]]
+ShiftRow(u, lon) == LET ss == SetToSortSeq(UNION {{a, -a} : a \in ShiftsOf(u)}, LAMBDA a, b : a < b)
+                    IN [u |-> Unit(u), lon |-> lon, s |-> ss,
+                        want |-> [k \in DOMAIN ss |-> ShiftSpec(lon, ss[k], FullOf(u))], wrap |-> WrapSpec(lon, FullOf(u))]
+
 Export == DoExport =>
+    /\ kind = "start" =>
+          /\ PrintT(<<"SEL", ToJson([sels |-> [s \in 1..11 |-> SelInfo(s)], rottol9 |-> RotTol9, anchortol9 |-> AnchorTol9,
+                                     unittol52 |-> UnitTol52, invcands |-> InvCands])>>)
+          /\ PrintT(<<"GCPTS", ToJson([pts |-> G])>>) /\ PrintT(<<"RSPTS", ToJson([pts |-> S])>>)
+          /\ \A u \in {1, 2} : \A lon \in LonsOf(u) : PrintT(<<"SHIFT", ToJson(ShiftRow(u, lon))>>)
     /\ (kind = "path" /\ Len(path) >= 2 /\ HasCanon(path)) =>
-          PrintT(<<"EQN", ToJson([path |-> path, rhs |-> Canon(path), tol9 |-> EqnTol9(path), kind |-> EqnKind(path)])>>)
-    /\ kind = "shift" => PrintT(<<"SHIFT", ToJson([lon |-> x, s |-> ShiftOf(y), want |-> ShiftSpec(x, ShiftOf(y)),
-                                                   wrap |-> WrapSpec(x)])>>)
+          PrintT(<<"EQN", ToJson([path |-> path, rhs |-> Canon(path), tol9 |-> EqnTol9(path), kind |-> EqnKind(path),
+                                  frame |-> PathSrc(path)])>>)
+    /\ kind = "frame" => PrintT(<<"PTS", ToJson([frame |-> FrameOf(x), pts |-> FrameSeq(FrameOf(x))])>>)
+    /\ kind = "gc1" => PrintT(<<"GCROW", ToJson(GCRow(x))>>)
+    /\ kind = "rs1" => PrintT(<<"RSROW", ToJson(RSRow(x))>>)
     /\ kind = "cube" => PrintT(<<"CUBE", ToJson([phi |-> CubePhi(x), theta |-> CubeTheta(x), psi |-> CubePsi(x)])>>)
     /\ kind = "anchor" => PrintT(<<"ANCHOR", ToJson([sel |-> x, a |-> AnchorSeq(x)[y]])>>)
 =============================================================================
